@@ -126,7 +126,9 @@ fn product() -> Vec<Case> {
                                 if inlet == Inlet::Dmq && (label != Label::Own || idx != IdxList::Matching) {
                                     continue; // the queue fixes the sender's name and rebuilds the index list
                                 }
-                                if buffered && (flavour != Flavour::Valid || idx != IdxList::Matching) {
+                                // buffered: also the replay of a signature of ANOTHER message (it authenticates against the
+                                // message the sender states), which can take a party's place in the buffer
+                                if buffered && (flavour == Flavour::NextEpochKey || idx != IdxList::Matching) {
                                     continue;
                                 }
                                 let adv = Op::Sign(SignOp { mask: 0b010, target: if buffered { Target::NotYetOpen(0) } else { Target::Current(0) }, flavour, inlet, label, source, idx });
@@ -151,6 +153,29 @@ fn product() -> Vec<Case> {
         }
     }
     v
+}
+
+pub const KEY_DISPLACED: &str = "honest-buffered-contribution-displaced";
+
+/// party 0 sends its signature early (buffered, acknowledged); party 1 replays a signature made by party 0's key over
+/// another message under party 0's name (it authenticates against the message the sender states); the open message
+/// is created: party 0 has no row
+fn displacement_witness() -> Case {
+    let cfg = SutConfig { k: 5, m: 100, phi_pct: 95, n_signers: 3, cardano_database: true, cardano_transactions: false, cardano_stake_distribution: false };
+    let early = |mask: u16, flavour: Flavour, label: Label, source: Source| Op::Sign(SignOp { mask, target: Target::NotYetOpen(0), flavour, inlet: Inlet::Http, label, source, idx: IdxList::Matching });
+    Case {
+        cfg,
+        honest_mask: 0b101,
+        ops: vec![
+            Op::Tick(1),
+            Op::Register { mask: 0b110, keygen: 1, when: RegEpoch::Current },
+            Op::EpochUp(1),
+            Op::Tick(2),
+            early(0b001, Flavour::Valid, Label::Own, Source::Own),
+            early(0b010, Flavour::WrongMessage, Label::Other(0), Source::CopyOf(0)),
+            Op::Tick(2),
+        ],
+    }
 }
 
 pub fn run_case(c: &Case, tolerated: &[String], sticky: bool) -> Report {
@@ -262,8 +287,12 @@ pub fn run(args: &Args) -> i32 {
         .shrink_iters(150);
     crate::model::warm_up(6);
     let t = check.tier;
-    let tolerated = crate::run::tolerated_keys(&check, args, &["mislabelled-signature-stored*", "mislabelled-signature-stored", "mislabelled-signature-stored:two-names", "panic-on-submission:name-not-registered*"]);
+    let tolerated = crate::run::tolerated_keys(&check, args, &["mislabelled-signature-stored*", "mislabelled-signature-stored", "mislabelled-signature-stored:two-names", "panic-on-submission:name-not-registered*", KEY_DISPLACED]);
     check.enumerate("label-signature-product", product().into_iter(), true, |c| run_case(c, &tolerated, false));
     check.section("rounds", case_strategy, t.pick(400, 12000), |c| run_case(c, &tolerated, true));
+    check.witness(KEY_DISPLACED, "a replayed signature of party A over another message, sent under A's name before the open message exists, takes A's slot in the buffer: A's acknowledged contribution is gone at hand-over", || {
+        let c = displacement_witness();
+        matches!(run_case(&c, &[], false).outcome, vcore::Outcome::Violation { key, .. } if key == KEY_DISPLACED)
+    });
     check.finish()
 }
